@@ -2,6 +2,7 @@ import Mouette.Model.FrameField
 import Mouette.Lemmas.C18Lemmas
 import Mouette.Lemmas.C18Vertex
 import Mouette.Lemmas.C18Bridge
+import Mouette.Lemmas.C18Hist
 /-
 C18 — Surface frame fields are unit, border-aligned and topologically consistent.   (PARTIAL)
 
@@ -503,5 +504,102 @@ example : cnt [⟨0, 1, 2⟩, ⟨0, 2, 3⟩] 0 2 = 1 ∧ cnt [⟨0, 1, 2⟩, ⟨
 example : ([3, 5] : List Nat).Nodup ∧ 5 ∈ [3, 5] := by decide
 
 end Vertex
+
+/-! # Round 3 — histories on one object / one mesh, more of the source translated
+
+Model: `Model/FrameFieldH.lean`; fragments: `Generated/C18Hist.lean`. These theorems make the history clauses of the oracle
+("the n-th use of an object / mesh gives what the first use of a fresh one gives") consequences of the model for the parts that
+are control flow and attribute handling; the numerical content of `initialize` / `optimize` stays abstract (`init`, `opt`). -/
+section Histories
+open Mouette.FFH Mouette.Lemmas.C18H Mouette.Lemmas.C18B Mouette.Generated
+
+/-- `run()` on an object that was already run does nothing: `run ∘ run = run`, for any `initialize` / `optimize`. -/
+theorem run_idempotent {α : Type} (init opt : α → α) (s : St α) : run init opt (run init opt s) = run init opt s :=
+  run_run init opt s
+
+/-- after `run()` both flags are set, and on a fresh object the data is `optimize (initialize d)` -/
+theorem run_on_fresh {α : Type} (init opt : α → α) (d : α) :
+    (run init opt (fresh d)).data = opt (init d) ∧ (run init opt (fresh d)).initialized = true ∧ (run init opt (fresh d)).smoothed = true :=
+  ⟨run_fresh init opt d, (run_flags init opt (fresh d)).1, (run_flags init opt (fresh d)).2⟩
+
+/-- `initialize()` followed by `run()` equals `run()` on a fresh object — with the flag behaviour the SOURCE has now
+(`Generated.C18H.initializeSetsFlag…`: the concrete `initialize()` set `self.initialized = True`), for faces and vertices:
+`initialize` is not executed twice. -/
+theorem run_after_initialize_faces {α : Type} (init opt : α → α) (d : α) :
+    run init opt (initializeStep C18H.initializeSetsFlagFaces init (fresh d)) = run init opt (fresh d) :=
+  run_after_initialize init opt d
+
+theorem run_after_initialize_vertices {α : Type} (init opt : α → α) (d : α) :
+    run init opt (initializeStep C18H.initializeSetsFlagVertices init (fresh d)) = run init opt (fresh d) :=
+  run_after_initialize init opt d
+
+/-- negation on a witness: if `initialize()` did NOT set the flag, `run()` would initialise a second time
+(`init = (· + 1)` on a counter shows it) -/
+theorem run_after_initialize_needs_flag :
+    (run (fun n : Nat => n + 1) id (initializeStep false (fun n : Nat => n + 1) (fresh 0))).data
+      ≠ (run (fun n : Nat => n + 1) id (fresh 0)).data := by decide
+
+/-- `flag_singularities` on a mesh that already carries the attribute: with the clearing the SOURCE performs now, the attribute after
+the call does not depend on what an earlier call (of this or another field) left there — all four attributes
+(face-based rotations / indices, vertex-based rotations / flags). -/
+theorem flag_attributes_independent_of_history (old : Option Attr) (writes : Attr) :
+    flagInto C18H.facesRotCleared old writes = flagInto C18H.facesRotCleared none writes ∧
+    flagInto C18H.facesSingulsCleared old writes = flagInto C18H.facesSingulsCleared none writes ∧
+    flagInto C18H.vertsRotCleared old writes = flagInto C18H.vertsRotCleared none writes ∧
+    flagInto C18H.vertsSingulsCleared old writes = flagInto C18H.vertsSingulsCleared none writes := by
+  unfold flagInto C18H.facesRotCleared C18H.facesSingulsCleared C18H.vertsRotCleared C18H.vertsSingulsCleared
+  cases old <;> simp
+
+/-- the constrained set of `FrameField2DFaces.optimize` is that of THIS field (`fixedFlagsFaces n adj`), whatever `fixed` flags an
+earlier field left on the mesh — with what the source does now (`Generated.C18H.facesFixedFresh`); together with
+`constrained_untouched` / `feature_faces_fixed`: exactly the current constraints are kept out of the solve. -/
+theorem fixed_flags_independent_of_history (old : Option (List Bool)) (n : Nat) (adj : List (Option Nat × Option Nat)) :
+    fixedFlagsInto C18H.facesFixedFresh old n adj = fixedFlagsFaces n adj := by
+  unfold fixedFlagsInto fixedFlagsFaces C18H.facesFixedFresh
+  cases old <;> rfl
+
+/-- negation on a witness (seeded change C18-e): re-used flags that are not cleared keep a face of the earlier field fixed -/
+theorem stale_fixed_flag_survives_without_clear :
+    fixedFlagsInto false (some [true, false]) 2 [(some 1, none)] ≠ fixedFlagsFaces 2 [(some 1, none)] := by decide
+
+/-- hence calling `flag_singularities` twice gives what calling it once gives -/
+theorem flag_twice_eq_once (old : Option Attr) (writes : Attr) :
+    flagInto true (some (flagInto true old writes)) writes = flagInto true old writes := by
+  unfold flagInto; cases old <;> simp
+
+/-- negation on a witness (the defect repaired in round 3: vertex2d did not clear): without clearing a stale flag survives -/
+theorem stale_flag_survives_without_clear : lookup (flagInto false (some [(7, 1)]) []) 7 ≠ lookup (flagInto false none []) 7 := by
+  unfold flagInto lookup; simp
+
+/-- the matching candidates of the FACE-based `flag_singularities`, built from the source's own expressions, are the model's -/
+theorem bridge_face_candidates (n : Nat) (th1 a1 th2 a2 : Rat) : candidatesSrcF n th1 a1 th2 a2 = candidates n th1 a1 th2 a2 :=
+  candidatesF_bridge n th1 a1 th2 a2
+
+/-- `_compute_attach_weight`: constants of the source are those of the model -/
+theorem bridge_attach_weight : C18H.attachFilterThreshold = attachThr ∧ C18H.attachFailValue = attachFail := by
+  unfold C18H.attachFilterThreshold C18H.attachFailValue attachThr attachFail; constructor <;> norm_num
+
+/-- the attach weight is strictly positive whatever `eigsh` returned (so `lapI - alpha*AI` is a genuine shift), also when a
+positive weight is prescribed -/
+theorem attach_weight_positive (eigs : List Rat) : 0 < attachWeight eigs := attachWeight_pos eigs
+
+theorem alpha_positive (given : Option Rat) (hg : ∀ a, given = some a → 0 < a) (eigs : List Rat) : 0 < alphaOf given eigs := by
+  unfold alphaOf
+  cases given with
+  | none => exact attachWeight_pos eigs
+  | some a =>
+    have ha := hg a rfl
+    simp only
+    split
+    · exact attachWeight_pos eigs
+    · exact ha
+
+/-! non-vacuity -/
+example : (run (fun n : Nat => n + 1) (fun n => 2 * n) (fresh 3)).data = 8 := by decide
+example : attachWeight [0, 1/2, -1/4] = 1/4 := by
+  unfold attachWeight attachThr attachFail rabs; norm_num [List.filter, listMin]
+example : flagInto true (some [(7, 1)]) [(2, -1)] = [(2, -1)] := rfl
+
+end Histories
 
 end Mouette.Props.C18
